@@ -11,6 +11,9 @@ open Wm Wm.Poison Wm.Relay
     utf8 <str>                                   →  1 | 0      (utf8.ValidString)
     rq <delay> <cancelled> <ok:<topic>|err> <dest> <uuid> <payload> <meta>
          →  P<n>[:<topic>|<uuid>|<payload>|<meta>|<sameObject>|<unsettledAtPublish>;…] A:<meta after> S:<ack|nack>
+    rqp <delay> <cancelled> <policy> <dest> <uuid> <payload> <meta>     GeneratePublishTopic reads the message it is shown:
+         policy = budget:<k>:<work>:<dead> (retries header >= k -> dead letter) | meta:<key> (topic = that metadata value)
+         →  as rq, plus G:<metadata of the message the topic function was shown | ! if it was not called>
     fwdtopic <configured>                        →  <topic the forwarder subscribes to>
     fwd <ackWhenCannotUnwrap> <bad | e:<dest>:<uuid>:<payload>:<meta>> <dest> <class>
          →  P<n>[:<topic>|<uuid>|<payload>|<meta>|<unsettled>;…] S:<ack|nack>
@@ -169,6 +172,45 @@ def rqMonitor (r : RqReq) (f : List String) : String := Id.run do
       if !pubs.isEmpty then return "violated:invented_publish"
     return "ok"
   | _ => return "bad-op"
+
+/-! ### requeuer with a topic function that reads the message -/
+
+def parsePolicy (s : String) : Option TopicPolicy :=
+  match s.splitOn ":" with
+  | ["budget", k, w, d] => do pure (budgetPolicy (← k.toInt?) (← hexDec w) (← hexDec d))
+  | ["meta", k] => (hexDec k).map metaPolicy
+  | _ => none
+
+structure RqpReq where
+  waitCancelled : Bool
+  pol : TopicPolicy
+  dest : POut
+  msg : Msg
+
+def parseRqp : List String → Option RqpReq
+  | [d, c, pol, dest, u, p, m] => do
+    pure ⟨(← parseBit d) && (← parseBit c), (← parsePolicy pol), (← parseDest dest), (← parseMsg u p m)⟩
+  | _ => none
+
+def rqpModel (r : RqpReq) : String :=
+  rqModel ⟨r.waitCancelled, r.pol r.msg, r.dest, r.msg⟩ ++ " G:" ++ (if r.waitCancelled then "!" else showMeta r.msg.md)
+
+/-- the statement: relayed to the COMPUTED destination topic = the topic function applied to the consumed message
+    (counter not yet raised), counter of the published message raised by one; the topic function is shown the
+    consumed message -/
+def rqpMonitor (r : RqpReq) (f : List String) : String :=
+  match f with
+  | [p, a, s, g] =>
+    match rqMonitor ⟨r.waitCancelled, r.pol r.msg, r.dest, r.msg⟩ [p, a, s] with
+    | "ok" =>
+      match tagged "G:" g with
+      | some "!" => "ok"
+      | some shown => match parseMeta shown with
+        | some md => if metaEq md r.msg.md then "ok" else "violated:topic_function_not_shown_consumed_message"
+        | none => "bad-op"
+      | none => "bad-op"
+    | v => v
+  | _ => "bad-op"
 
 /-! ### forwarder -/
 
@@ -355,6 +397,9 @@ def handleM : List String → String
   | "rq" :: rest => match parseRq rest with
     | some r => rqModel r
     | none => "bad-op"
+  | "rqp" :: rest => match parseRqp rest with
+    | some r => rqpModel r
+    | none => "bad-op"
   | ["fwdtopic", t] => match hexDec t with
     | some t => hexEnc (effTopic t)
     | none => "bad-op"
@@ -390,6 +435,9 @@ def handleP (req obs : List String) : String :=
     if handleM req == "bad-op" then "bad-op" else "ok"
   | "rq" :: rest => match parseRq rest with
     | some r => rqMonitor r obs
+    | none => "bad-op"
+  | "rqp" :: rest => match parseRqp rest with
+    | some r => rqpMonitor r obs
     | none => "bad-op"
   | ["fwd", a, e, d, _] => match parseBit a, parseParsed e, parseDest d, obs with
     | some a, some e, some d, [p, s] => fwdMonitor a e d p s
